@@ -1,12 +1,192 @@
-import BppModel.Param
+import BppProofs.Lemmas.Interval
 /-!
 # C01 — a constrained parameter never holds a value its constraint rejects
-(placeholder for the first end-to-end slice; the theorems follow)
+(src/Bpp/Numeric/Constraints.h, Parameter.{h,cpp}, AutoParameter.cpp)
+
+Property theorems only; helper lemmas are in `Lemmas/Interval.lean`, `Lemmas/Param.lean`.
+The model (`BppModel/Interval.lean`, `BppModel/Param.lean`) is generic over `Scalar`; the
+theorems are about its interpretation at `ℝ`.  A C++ `double` that may be infinite is a
+`Bound ℝ` (extended real, `Bound.toEReal`); NaN is not modelled.  `Interval.denote c` is the set
+of extended reals between the bounds of `c`, an end point belonging to it iff its flag says so.
+
+The theorems are about the *repaired* code; `legacy_*_witness` show that each statement was
+false of the code as found (the defects are listed in findings/C01.json).
 -/
 namespace Bpp.C01
-open Bpp
+open Bpp Bpp.Interval
 
-/-- copying keeps every data member -/
-theorem copy_eq {α : Type} (p : Param α) : p.copy = p := rfl
+/-! ## IntervalConstraint: membership -/
+
+/-- `isCorrect` accepts exactly the doubles (infinite ones included) in the denoted set -/
+theorem isCorrectB_iff (c : Interval ℝ) (v : Bound ℝ) : c.isCorrectB v = true ↔ v.toEReal ∈ c.denote :=
+  isCorrectB_iff_mem c v
+
+/-- `isCorrect` accepts exactly the reals between the bounds, honouring open/closed ends
+(all bound / flag combinations, infinite bounds included) -/
+theorem isCorrect_iff (c : Interval ℝ) (v : ℝ) : c.isCorrect v = true ↔ (v : EReal) ∈ c.denote :=
+  isCorrectB_iff_mem c (.fin v)
+
+/-- the same, spelled out without sets -/
+theorem isCorrect_iff_bounds (c : Interval ℝ) (v : ℝ) :
+    c.isCorrect v = true ↔
+      (if c.inclLo then c.lo.toEReal ≤ v else c.lo.toEReal < v) ∧
+      (if c.inclHi then (v : EReal) ≤ c.hi.toEReal else (v : EReal) < c.hi.toEReal) := by
+  rw [isCorrect_iff, mem_denote]
+
+/-- the four shapes -/
+theorem isCorrect_closed (a b p v : ℝ) : (Interval.make (.fin a) (.fin b) true true p).isCorrect v = true ↔ a ≤ v ∧ v ≤ b := by
+  rw [isCorrect_iff_bounds]; simp [Interval.make]
+theorem isCorrect_open (a b p v : ℝ) : (Interval.make (.fin a) (.fin b) false false p).isCorrect v = true ↔ a < v ∧ v < b := by
+  rw [isCorrect_iff_bounds]; simp [Interval.make]
+theorem isCorrect_halfLine_pos (a p v : ℝ) (incl : Bool) :
+    (Interval.halfLine true (.fin a) incl p).isCorrect v = true ↔ (if incl then a ≤ v else a < v) := by
+  rw [isCorrect_iff_bounds]; cases incl <;> simp [Interval.halfLine, EReal.coe_lt_top]
+theorem isCorrect_halfLine_neg (b p v : ℝ) (incl : Bool) :
+    (Interval.halfLine false (.fin b) incl p).isCorrect v = true ↔ (if incl then v ≤ b else v < b) := by
+  rw [isCorrect_iff_bounds]; cases incl <;> simp [Interval.halfLine, EReal.bot_lt_coe]
+/-- the default interval accepts every real -/
+theorem isCorrect_default (v : ℝ) : (Interval.default : Interval ℝ).isCorrect v = true := by
+  rw [isCorrect_iff_bounds]; simp [Interval.default]
+
+/-- the driver's independent formulation of membership is the same set -/
+theorem memSpec_iff (c : Interval ℝ) (v : Bound ℝ) : c.memSpec v = true ↔ v.toEReal ∈ c.denote :=
+  memSpec_iff_mem c v
+
+/-- `includes(min, max)`: both ends lie inside, hence (for `min ≤ max`) the whole segment -/
+theorem includes_iff (c : Interval ℝ) (mn mx : Bound ℝ) (h : mn.toEReal ≤ mx.toEReal) :
+    c.includes mn mx = true ↔ Set.Icc mn.toEReal mx.toEReal ⊆ c.denote := by
+  have key : c.includes mn mx = true ↔
+      (if c.inclLo then c.lo.toEReal ≤ mn.toEReal else c.lo.toEReal < mn.toEReal) ∧
+      (if c.inclHi then mx.toEReal ≤ c.hi.toEReal else mx.toEReal < c.hi.toEReal) := by
+    unfold includes
+    cases c.inclLo <;> cases c.inclHi <;>
+      simp [Bound.geb_iff, Bound.gtb_iff, Bound.leb_iff, Bound.ltb_iff]
+  rw [key]
+  constructor
+  · rintro ⟨h1, h2⟩ x ⟨hx1, hx2⟩
+    rw [mem_denote]
+    refine ⟨?_, ?_⟩
+    · split_ifs at h1 ⊢ <;> order
+    · split_ifs at h2 ⊢ <;> order
+  · intro hs
+    have a := (mem_denote c _).1 (hs ⟨le_refl _, h⟩)
+    have b := (mem_denote c _).1 (hs ⟨h, le_refl _⟩)
+    exact ⟨a.1, b.2⟩
+
+/-! ## intersection -/
+
+/-- the intersection denotes the intersection: it accepts exactly the values both accept -/
+theorem inter_denote (c d : Interval ℝ) : (c.inter d).denote = c.denote ∩ d.denote := by
+  ext x
+  rw [Set.mem_inter_iff, mem_denote, mem_denote, mem_denote]
+  exact Iff.trans (and_congr (interLo_spec c d x) (interHi_spec c d x)) (by tauto)
+
+theorem inter_iff (c d : Interval ℝ) (v : ℝ) :
+    (c.inter d).isCorrect v = true ↔ (c.isCorrect v = true ∧ d.isCorrect v = true) := by
+  simp only [isCorrect_iff, inter_denote, Set.mem_inter_iff]
+
+theorem inter_iff_ext (c d : Interval ℝ) (v : Bound ℝ) :
+    (c.inter d).isCorrectB v = true ↔ (c.isCorrectB v = true ∧ d.isCorrectB v = true) := by
+  simp only [isCorrectB_iff, inter_denote, Set.mem_inter_iff]
+
+/-- `operator&=` computes the same interval as `operator&` -/
+theorem interAssign_eq (c d : Interval ℝ) : c.interAssign d = c.inter d := interAssign_eq_inter c d
+
+theorem interAssign_iff (c d : Interval ℝ) (v : ℝ) :
+    (c.interAssign d).isCorrect v = true ↔ (c.isCorrect v = true ∧ d.isCorrect v = true) := by
+  rw [interAssign_eq, inter_iff]
+
+/-- the order of the operands does not matter for what is accepted -/
+theorem inter_comm_denote (c d : Interval ℝ) : (c.inter d).denote = (d.inter c).denote := by
+  rw [inter_denote, inter_denote, Set.inter_comm]
+
+/-- the precision of the intersection is the larger precision -/
+theorem inter_prec (c d : Interval ℝ) : (c.inter d).prec = max c.prec d.prec := by
+  show (if Scalar.gtb c.prec d.prec then c.prec else d.prec) = _
+  by_cases h : d.prec < c.prec
+  · simp [h, max_eq_left h.le]
+  · simp [h, max_eq_right (not_lt.1 h)]
+
+/-! ## emptiness -/
+
+/-- `isEmpty` is reported iff the denoted set is empty -/
+theorem isEmpty_iff (c : Interval ℝ) : c.isEmpty = true ↔ c.denote = ∅ := by
+  rw [Set.eq_empty_iff_forall_notMem]
+  constructor
+  · intro hE x hx
+    rw [mem_denote] at hx
+    obtain ⟨h1, h2⟩ := hx
+    rcases (isEmpty_iff_cond c).1 hE with h | ⟨h, a | b⟩
+    · split_ifs at h1 h2 <;> order
+    · simp only [a, Bool.false_eq_true, if_false] at h1
+      split_ifs at h2 <;> order
+    · simp only [b, Bool.false_eq_true, if_false] at h2
+      split_ifs at h1 <;> order
+  · intro hall
+    by_contra hne
+    obtain ⟨h1, h2⟩ := not_isEmpty_cond c hne
+    rcases lt_or_eq_of_le h1 with hlt | heq
+    · obtain ⟨x, hx1, hx2⟩ := exists_between hlt
+      apply hall x
+      rw [mem_denote]
+      refine ⟨?_, ?_⟩ <;> split_ifs <;> order
+    · obtain ⟨a, b⟩ := h2 heq
+      apply hall c.lo.toEReal
+      rw [mem_denote]
+      simp only [a, b, if_true]
+      exact ⟨le_refl _, heq.le⟩
+
+/-- … iff no double (infinite ones included) is accepted -/
+theorem isEmpty_iff_forall (c : Interval ℝ) : c.isEmpty = true ↔ ∀ v : Bound ℝ, c.isCorrectB v = false := by
+  rw [isEmpty_iff, Set.eq_empty_iff_forall_notMem]
+  constructor
+  · intro h v
+    rw [Bool.eq_false_iff, Ne, isCorrectB_iff]; exact h _
+  · intro h x
+    obtain ⟨b, rfl⟩ := Bound.toEReal_surjective x
+    rw [← isCorrectB_iff]; simp [h b]
+
+/-- Emptiness over the *reals*.  Full statement wanted: `c.isEmpty ↔ ∀ v : ℝ, ¬ c.isCorrect v`.
+It is false for `[+inf,+inf]` and `[-inf,-inf]` (`isEmpty_real_witness`), which accept the infinite
+double only; it holds under the guard `proper` (lower bound not `+inf`, upper bound not `-inf`). -/
+theorem isEmpty_iff_real_partial (c : Interval ℝ) (hp : c.proper = true) :
+    c.isEmpty = true ↔ ∀ v : ℝ, c.isCorrect v = false := by
+  constructor
+  · intro h v; exact (isEmpty_iff_forall c).1 h (.fin v)
+  · intro hall
+    by_contra hne
+    have hlo : c.lo.toEReal ≠ ⊤ := by
+      intro h; unfold proper at hp
+      cases hl : c.lo <;> simp_all
+    have hhi : c.hi.toEReal ≠ ⊥ := by
+      intro h; unfold proper at hp
+      cases hl : c.hi <;> simp_all
+    obtain ⟨h1, h2⟩ := not_isEmpty_cond c hne
+    have fin_acc : ∀ v : ℝ, ¬ ((v : EReal) ∈ c.denote) := by
+      intro v hv; have := hall v; rw [Bool.eq_false_iff, Ne, isCorrect_iff] at this; exact this hv
+    rcases lt_or_eq_of_le h1 with hlt | heq
+    · obtain ⟨x, hx1, hx2⟩ := EReal.lt_iff_exists_real_btwn.1 hlt
+      apply fin_acc x
+      rw [mem_denote]
+      refine ⟨?_, ?_⟩ <;> split_ifs <;> order
+    · obtain ⟨a, b⟩ := h2 heq
+      -- the common bound is finite
+      cases hl : c.lo with
+      | negInf => rw [hl] at heq; exact hhi heq.symm
+      | posInf => rw [hl] at hlo; exact hlo rfl
+      | fin x =>
+        apply fin_acc x
+        rw [mem_denote]
+        simp only [a, b, if_true, hl, Bound.toEReal_fin] at *
+        exact ⟨le_refl _, heq.le⟩
+
+/-- the guard of `isEmpty_iff_real_partial` is needed: `[+inf,+inf]` accepts no real, yet is not
+reported empty -/
+theorem isEmpty_real_witness :
+    let c : Interval ℝ := Interval.make .posInf .posInf true true 0
+    c.isEmpty = false ∧ ∀ v : ℝ, c.isCorrect v = false := by
+  refine ⟨by simp [Interval.make, isEmpty, Bound.gtb, Bound.ltb, Bound.eqb], ?_⟩
+  intro v
+  simp [Interval.make, isCorrect, isCorrectB, Bound.geb, Bound.leb]
 
 end Bpp.C01
